@@ -1,6 +1,7 @@
 import RTA.Lemmas.MonoAnalyses
 import RTA.Lemmas.MonoRos
 import RTA.Lemmas.MonoChain
+import RTA.Lemmas.MonoRosOwn
 /-! # C17 — response-time bounds are monotone in workload and supply
 
 Order on results: `Res.le`: `ok a ≤ ok b` iff `a ≤ b`; every `ok`/`div` is below a divergence
@@ -123,6 +124,30 @@ theorem ros_polling_point_monotone_partial (s s' : Supply) (hs : s.WF) (hs' : s'
     Res.leD (rosPollingPoint s (.rbf a (.scalar C)) interf limit)
       (rosPollingPoint s' (.rbf a (.scalar C)) interf' limit) :=
   pollingPoint_mono s s' hs hs' hsup a C hwf hex hC hpos interf interf' hwfi hexi hwfi' hexi' h limit hl
+
+/-- timer: EVERY single-parameter hardening — the analysed timer's own arrival curve (more
+jitter, shorter period: `a ≤ a'` pointwise) and WCET, the interference, the blocking bound, the
+supply (the search space of this analysis is pruned to the own steps, so this does not follow
+from the naive evaluation; `Lemmas/MonoRosOwn.lean`) -/
+theorem ros_timer_monotone (s s' : Supply) (hs : s.WF) (hs' : s'.WF) (hsup : s'.Weaker s)
+    (a a' : Arr) (C C' : Nat) (hwf : a.WF) (hex : a.Exact) (hwf' : a'.WF) (hex' : a'.Exact)
+    (hC : 1 ≤ C) (hCC : C ≤ C') (hpos : 0 < a.N 1) (hN : ∀ d, a.N d ≤ a'.N d)
+    (interf interf' : RB) (hwfi : interf.ArrWF) (hexi : interf.Exact)
+    (hwfi' : interf'.ArrWF) (hexi' : interf'.Exact)
+    (h : ∀ d, interf.need d ≤ interf'.need d) (B B' : Nat) (hB : B ≤ B') (limit : Nat) (hl : 1 ≤ limit) :
+    Res.leD (rosTimer s (.rbf a (.scalar C)) interf B limit)
+      (rosTimer s' (.rbf a' (.scalar C')) interf' B' limit) :=
+  timer_mono_all s s' hs hs' hsup a a' C C' hwf hex hwf' hex' hC hCC hpos hN interf interf' hwfi hexi hwfi' hexi'
+    h B B' hB limit hl
+
+/-- polling-point callback: a harder own model -/
+theorem ros_polling_point_monotone_own (s : Supply) (hs : s.WF)
+    (a a' : Arr) (C C' : Nat) (hwf : a.WF) (hex : a.Exact) (hwf' : a'.WF) (hex' : a'.Exact)
+    (hC : 1 ≤ C) (hCC : C ≤ C') (hpos : 0 < a.N 1) (hN : ∀ d, a.N d ≤ a'.N d)
+    (interf : RB) (hwfi : interf.ArrWF) (hexi : interf.Exact) (limit : Nat) (hl : 1 ≤ limit) :
+    Res.leD (rosPollingPoint s (.rbf a (.scalar C)) interf limit)
+      (rosPollingPoint s (.rbf a' (.scalar C')) interf limit) :=
+  pollingPoint_mono_own s hs a a' C C' hwf hex hwf' hex' hC hCC hpos hN interf hwfi hexi limit hl
 
 /-- processing chain: a longer chain prefix, more demand of the other chains, a weaker supply
 (partial as above: the chain's own arrival curve and the WCET of its last callback fixed) -/
